@@ -10,6 +10,7 @@ CONSTANTS
   MaxSendErrs = 5
   MaxResults = 5
   KindSet = {"ok", "ne", "nr", "pe", "pp", "em"}
+  BuCap = 3
   FixF22 = FALSE
   GenHist = TRUE
 INIT Init
